@@ -8,7 +8,7 @@ RULE = ('storage histories (deletes into already-indexed blobs = stale indexes, 
         'it); between two sessions each index file gets one damage pattern: removed / truncated at a length (every '
         'section boundary +-2, inside header, inside the filter section, inside the tree, inside the leaves, random) / '
         'header only / written-flag cleared / recorded blob size changed; reopen eager and lazy, optionally off-loading the re-read bloom filters; every query + counts '
-        'must equal the answers before the close; index-open stream: an index file written through hook H2 is cut at a length / has one header or tree-meta field overwritten and is opened again, outcome class = Coq index_open; next_blob_id must stay above all ids; debug and release builds; '
+        'must equal the answers before the close; many-blobs stream: 11-15 blobs with equal-timestamp versions of a key in several of them; index-open stream: an index file written through hook H2 is cut at a length / has one header or tree-meta field overwritten and is opened again, outcome class = Coq index_open; next_blob_id must stay above all ids; debug and release builds; '
         'distinct by (cfg, damage class, outcome class)')
 ASSUMPTIONS = ['bit rot inside an index file that keeps header, meta and root parseable is not in the property\'s list']
 
@@ -113,9 +113,39 @@ def gen_index_open_script(rng):
     return '\n'.join(L) + '\n'
 
 
+def gen_many_blobs_script(rng):
+    """More than ten blobs (two-digit ids next to one-digit ids), the same key with EQUAL timestamps in several of
+    them (the newest blob wins a tie), restart eager / lazy with any subset of index files removed: same answers,
+    same per-blob counts in the same order, same active blob."""
+    K = 4
+    nb = rng.choice([11, 12, 13, 15])
+    L = ['cfg K=4 dup=1 group=%d bloom=none init=eager runtime=%s' % (rng.choice([2, 8]), rng.choice(['mt', 'ct'])), 'open']
+    keys = ['00000001', '00000002', '00000003']
+    seed = 0
+    for b in range(nb):
+        for _ in range(rng.choice([1, 1, 2])):
+            seed += 1
+            L.append('W %s %d - 5 %d' % (rng.choice(keys[:2]), rng.choice([5, 5, 7]), seed))
+        if b < nb - 1:
+            L.append('close_active')
+    qs = []
+    for k in keys:
+        qs += ['R %s' % k, 'C %s' % k, 'RD %s' % k]
+    L.append('#PRE')
+    L += qs + ['counts', 'ls']
+    L.append(rng.choice(['close', 'drop']))
+    for i in rng.sample(range(nb), rng.choice([0, 0, 1, 3, nb])):
+        L.append('rmindex %d' % i)
+    L.append('cfgnext init=%s' % rng.choice(['eager', 'lazy']))
+    L.append('open')
+    L += qs + ['counts']
+    L += ['W %s 1000 - 5 777' % keys[0], 'R %s' % keys[0], 'close', 'open', 'R %s' % keys[0]]
+    return '\n'.join(L) + '\n'
+
+
 def gen(tier, rng):
     n = 240 if tier == 'quick' else 5000
-    return [('restart%05d' % i, gen_script(rng)) for i in range(n)] + [('idxopen%05d' % i, gen_index_open_script(rng)) for i in range(n // 2)]
+    return [('many%05d' % i, gen_many_blobs_script(rng)) for i in range(max(4, n // 20))] + [('restart%05d' % i, gen_script(rng)) for i in range(n)] + [('idxopen%05d' % i, gen_index_open_script(rng)) for i in range(n // 2)]
 
 
 def parse_counts(o):
